@@ -86,13 +86,17 @@ Definition spec_read_regs_response (tid uid fc : Z) (vals : list Z) : list Z :=
 
 Record pcase := {
   pc_tid : Z; pc_uid : Z; pc_fc : Z;
+  pc_valid : bool;                  (* the whole addressed range exists in the configured table *)
   pc_vals : list Z;                 (* the addressed cells of the datastore at probe time *)
   pc_answer : list (list Z);        (* what the fresh connection sent back *)
   pc_fresh_answer : list (list Z)   (* what a brand-new server holding the same datastore sends *) }.
 
 Definition chk_probe (c : pcase) : bool * bool :=
   (list_eqb zlist_eqb (pc_answer c) (pc_fresh_answer c),
-   list_eqb zlist_eqb (pc_answer c) [spec_read_regs_response (pc_tid c) (pc_uid c) (pc_fc c) (pc_vals c)]).
+   list_eqb zlist_eqb (pc_answer c)
+     [if pc_valid c then spec_read_regs_response (pc_tid c) (pc_uid c) (pc_fc c) (pc_vals c)
+      else (* exception response, ILLEGAL DATA ADDRESS *)
+           be16 (pc_tid c) ++ be16 0 ++ be16 3 ++ [pc_uid c; pc_fc c + 128; 2]]).
 
 (* ---- suite "store": the datastore changes only as contained write requests prescribe ---- *)
 (* Socket (MBAP) framing.  A well-formed write request CONTAINED in the received bytes is any
@@ -166,16 +170,31 @@ Definition unit_ok (single bcast : bool) (wu cu : Z) : bool :=
 
 Definition nth_z (l : list Z) (i : Z) : option Z := if i <? 0 then None else nth_error l (Z.to_nat i).
 
-Definition explains (single bcast : bool) (c : cell) (w : wreq) : bool :=
+(* the configured tables: (unit, table, first block address, one past the last) — the cells that
+   exist BEFORE any request; a request is valid only if its whole range lies inside *)
+Definition extent := (Z * Z * Z * Z)%type.
+Definition in_extent (ex : list extent) (unit table lo n : Z) : bool :=
+  existsb (fun e => match e with (u, t, a, b) => (u =? unit) && (t =? table) && (a <=? lo) && (lo + n <=? b) end) ex.
+
+(* [off]: wire address -> block address (0 in zero_mode, 1 otherwise).  A cell whose old or new
+   value is -1 did not exist before / does not exist after: a table that grew or shrank is a
+   change no request prescribes. *)
+Definition explains (single bcast : bool) (off : Z) (ex : list extent) (c : cell) (w : wreq) : bool :=
+  (0 <=? ce_old c) && (0 <=? ce_new c) &&
   match w with
-  | WCoil u a v => unit_ok single bcast u (ce_unit c) && (ce_table c =? 0) && (a =? ce_addr c) && (v =? ce_new c)
-  | WReg u a v => unit_ok single bcast u (ce_unit c) && (ce_table c =? 1) && (a =? ce_addr c) && (v =? ce_new c)
+  | WCoil u a v => unit_ok single bcast u (ce_unit c) && (ce_table c =? 0) && (a + off =? ce_addr c) && (v =? ce_new c)
+                   && in_extent ex (ce_unit c) 0 (a + off) 1
+  | WReg u a v => unit_ok single bcast u (ce_unit c) && (ce_table c =? 1) && (a + off =? ce_addr c) && (v =? ce_new c)
+                  && in_extent ex (ce_unit c) 1 (a + off) 1
   | WCoils u a bits => unit_ok single bcast u (ce_unit c) && (ce_table c =? 0) &&
-                       match nth_z bits (ce_addr c - a) with Some b => b =? ce_new c | None => false end
+                       match nth_z bits (ce_addr c - (a + off)) with Some b => b =? ce_new c | None => false end
+                       && in_extent ex (ce_unit c) 0 (a + off) 1
   | WRegs u a vals => unit_ok single bcast u (ce_unit c) && (ce_table c =? 1) &&
-                      match nth_z vals (ce_addr c - a) with Some v => v =? ce_new c | None => false end
-  | WMask u a andm orm => unit_ok single bcast u (ce_unit c) && (ce_table c =? 1) && (a =? ce_addr c) &&
+                      match nth_z vals (ce_addr c - (a + off)) with Some v => v =? ce_new c | None => false end
+                      && in_extent ex (ce_unit c) 1 (a + off) (Z.of_nat (length vals))
+  | WMask u a andm orm => unit_ok single bcast u (ce_unit c) && (ce_table c =? 1) && (a + off =? ce_addr c) &&
                           (Z.lor (Z.land (ce_old c) andm) (Z.land orm (Z.lxor andm 65535)) =? ce_new c)
+                          && in_extent ex (ce_unit c) 1 (a + off) 1
   end.
 
 (* -- the other framings: a contained request is a checksum-valid frame of that framing -------- *)
@@ -260,6 +279,8 @@ Definition contained (fr : framing) (s : list Z) : list wreq :=
 Record scase := {
   sc_framing : framing;
   sc_single : bool; sc_bcast : bool;
+  sc_zero_mode : bool;               (* ModbusSlaveContext(zero_mode=...) *)
+  sc_extents : list extent;          (* the configured tables *)
   sc_streams : list (list Z);        (* the bytes received, per connection / datagram (TLS: per read) *)
   sc_cells : list cell;              (* every cell whose value changed, with the value before and after *)
   sc_steps : list (nat * bool) }.    (* per activation: requests delivered, datastore changed *)
@@ -267,7 +288,7 @@ Record scase := {
 Definition chk_store (c : scase) : bool * bool :=
   let ws := flat_map (contained (sc_framing c)) (sc_streams c) in
   (forallb (fun s => negb (Nat.eqb (fst s) 0) || negb (snd s)) (sc_steps c),
-   forallb (fun ce => (ce_table ce <=? 1) && existsb (explains (sc_single c) (sc_bcast c) ce) ws) (sc_cells c)).
+   forallb (fun ce => (ce_table ce <=? 1) && existsb (explains (sc_single c) (sc_bcast c) (if sc_zero_mode c then 0 else 1) (sc_extents c) ce) ws) (sc_cells c)).
 
 (* sanity: CRC-16/MODBUS of "123456789" is 0x4B37; LRC of 01 03 00 00 00 01 is FB *)
 Definition crc_selftest : bool :=
